@@ -766,6 +766,7 @@ package query
 //@   ensures [undeclared-is-error] forall(q, 0, len(rs.Blocks), !curDeclared(rs.Blocks[q].Cursors, name.Literal)) ==> result1 != nil && result0 == nil && cursorServedBy == old(cursorServedBy)
 //@   loop 1 invariant 0 <= $i && $i <= len(rs.Blocks) && cursorServedBy == old(cursorServedBy) && forall(q, 0, $i, !curDeclared(rs.Blocks[q].Cursors, name.Literal))
 //@   modifies *
+//@   modifies cursorServedBy
 
 // a child block: one new (pooled, cleared) block in front of the parent's blocks, which are shared, not copied
 //@ func (*ReferenceScope).CreateChild
@@ -815,6 +816,7 @@ package query
 //@   loop 2 invariant swapsStarted == 0
 //@   assert after call endingLineBreak: [ending-break-follows-the-file] !(exportOptions.Format == option.FIXED && exportOptions.SingleLine)
 //@   modifies *
+//@   modifies cacheCleans
 
 // C02: the dialect detected when the file was loaded is what the writer gets at COMMIT
 //@ func (*FileInfo).ExportOptions
@@ -862,6 +864,7 @@ package query
 //@   requires fn != nil && scope != nil && len(scope.Blocks) >= 1
 //@   ensures [releases-no-block-itself] blockReleased == old(blockReleased)
 //@   modifies * except F:query.ReferenceScope. E:query.BlockScope# F:query.VariableMap. E:map[string][]int# E:[]string#
+//@   modifies blockReleased
 
 //@ func (*UserDefinedFunction).Execute
 //@   property C15
@@ -870,6 +873,7 @@ package query
 //@   ensures [at-most-one-block-changes-hands] forallv(b1, int, forallv(b2, int, blockReleased[b1] != old(blockReleased[b1]) && blockReleased[b2] != old(blockReleased[b2]) ==> b1 == b2))
 //@   ensures [callers-blocks-not-released] forall(k, 0, len(scope.Blocks), !blockReleased[blockId(scope.Blocks[k])])
 //@   modifies *
+//@   modifies blockReleased
 
 // every iteration of WHILE starts in a cleared block: locals of the previous iteration are gone before the condition
 // is evaluated (ghost flag: set by statement execution, reset by ClearCurrentBlock)
@@ -1089,6 +1093,7 @@ package query
 //@   ensures [default-never-uses-the-exact-key] !old(flags.StrictEqual) ==> strictKeys == old(strictKeys)
 //@   loop 1 invariant flags.StrictEqual == old(flags.StrictEqual) && (old(flags.StrictEqual) ==> looseKeys == old(looseKeys)) && (!old(flags.StrictEqual) ==> strictKeys == old(strictKeys))
 //@   modifies *
+//@   modifies looseKeys, strictKeys
 //@ func Distinguish
 //@   property C04
 //@   ensures [strict-equal-never-uses-the-normalising-key] old(flags.StrictEqual) ==> looseKeys == old(looseKeys)
@@ -1096,6 +1101,7 @@ package query
 //@   loop 1 invariant flags.StrictEqual == old(flags.StrictEqual) && (old(flags.StrictEqual) ==> looseKeys == old(looseKeys)) && (!old(flags.StrictEqual) ==> strictKeys == old(strictKeys))
 //@   loop 2 invariant flags.StrictEqual == old(flags.StrictEqual) && (old(flags.StrictEqual) ==> looseKeys == old(looseKeys)) && (!old(flags.StrictEqual) ==> strictKeys == old(strictKeys))
 //@   modifies *
+//@   modifies looseKeys, strictKeys
 //@ func (*View).group$1
 //@   property C12 C13
 //@   requires 0 <= thIdx && thIdx < len(groupsList) && thIdx < len(groupKeysList)
@@ -1225,6 +1231,7 @@ package query
 //@   ensures [read-handler-released-before-return] !forUpdate && handlersOpened == old(handlersOpened) + 1 ==> handlersClosed >= old(handlersClosed) + 1
 //@   ensures [loaded-for-update-is-marked] err == nil && forUpdate && fileLoads == old(fileLoads) + 1 ==> view.FileInfo.ForUpdate
 //@   modifies *
+//@   modifies fileLoads, handlersOpened, handlersClosed
 
 // ---------------------------------------------------------------------------------------------
 // C02 (thin): the CSV/TSV writer of the go-text dependency encloses a field only when asked to or when the field contains
@@ -1324,10 +1331,12 @@ package query
 //@   property C20
 //@   ensures [cache-dropped] cacheCleans == old(cacheCleans) + 1
 //@   modifies *
+//@   modifies cacheCleans
 //@ func (*Transaction).Rollback
 //@   property C20 C01
 //@   ensures [rollback-drops-the-table-cache] cacheCleans > old(cacheCleans)
 //@   modifies *
+//@   modifies cacheCleans
 
 // ---------------------------------------------------------------------------------------------
 // C01: ROLLBACK of a temporary table puts back the header and the rows of its restore point, whatever was changed.
